@@ -125,7 +125,10 @@ func (c *FnCtx) evalCall(st *State, call *ast.CallExpr) []*Val {
 		if call.Ellipsis == token.NoPos {
 			args = c.packVariadic(st, ci.fn, args)
 		}
-		return c.callFunc(st, call, ci.fn, recv, args)
+		c.curRecvExpr = ci.recv
+		rs := c.callFunc(st, call, ci.fn, recv, args)
+		c.curRecvExpr = nil
+		return rs
 	}
 	for _, a := range call.Args {
 		c.eval(st, a)
@@ -643,6 +646,35 @@ func (c *FnCtx) callFunc(st *State, call *ast.CallExpr, fn *types.Func, recv *Va
 			c.applyModifies(st, envPre, m)
 		}
 	}
+	// abstract values updated in place (receiver of container methods)
+	postBind := map[string]*Val{}
+	recvExpr := c.curRecvExpr
+	c.curRecvExpr = nil
+	for _, mn := range con.Mutates {
+		v := bind[mn]
+		if v == nil {
+			c.warn("mutates %s: not a parameter of %s", mn, key)
+			continue
+		}
+		if v.S == SInt && v.Typ != nil {
+			// pointer to an abstract value
+			if pt, ok := v.Typ.Underlying().(*types.Pointer); ok {
+				es := c.sortOf(pt.Elem())
+				hk := "ptr." + sortName(es)
+				h := c.heapGet(st, hk, es)
+				nv := c.fresh("mut_"+mn, es)
+				st.heap[hk] = tApp("store", h, v.T, nv)
+				continue
+			}
+		}
+		nv := &Val{T: c.fresh("mut_"+mn, v.S), S: v.S, Typ: v.Typ}
+		postBind[mn] = nv
+		if recvExpr != nil && len(names) > 0 && names[0] == mn && sig.Recv() != nil {
+			c.assignTo(st, recvExpr, nv)
+		} else {
+			c.warn("mutates %s at %s: no assignable location", mn, c.pos(call))
+		}
+	}
 	// results
 	var results []*Val
 	resNames := []string{}
@@ -668,9 +700,12 @@ func (c *FnCtx) callFunc(st *State, call *ast.CallExpr, fn *types.Func, recv *Va
 				return results[i]
 			}
 		}
+		if v, ok := postBind[name]; ok {
+			return v
+		}
 		return bind[name]
 	}
-	envPost := &SpecEnv{c: c, st: st, lookup: postLookup, old: oldEnv, calleeKey: key}
+	envPost := &SpecEnv{c: c, st: st, lookup: postLookup, old: oldEnv, calleeKey: key, calleePost: true}
 	for _, e := range con.Ensures {
 		st.assume(c.specBool(envPost, e.Expr))
 	}
@@ -720,6 +755,28 @@ func (c *FnCtx) applyModifies(st *State, env *SpecEnv, m Clause) {
 				c.havocHeapAt(st, k, v.Box)
 			}
 			return
+		}
+		c.warn("modifies %s: cannot resolve; havoc all", m.Src)
+		ms := newModSet()
+		ms.all = true
+		c.havoc(st, ms, "mod")
+	case *ast.StarExpr:
+		p := c.specEval(env, x.X)
+		if p.Typ != nil {
+			if pt, ok := p.Typ.Underlying().(*types.Pointer); ok {
+				if es := c.sortOf(pt.Elem()); es != SNone {
+					k := "ptr." + sortName(es)
+					c.heapGet(st, k, es)
+					c.havocHeapAt(st, k, p.T)
+					return
+				}
+				ms := newModSet()
+				c.addHeapKeys(typeShortName(pt.Elem()), "", pt.Elem(), ms)
+				for k := range ms.heap {
+					c.havocHeapAt(st, k, p.T)
+				}
+				return
+			}
 		}
 		c.warn("modifies %s: cannot resolve; havoc all", m.Src)
 		ms := newModSet()
